@@ -62,7 +62,7 @@ PLAN = {
                 "len()/num_inner_nodes() agreement, var<->level maps inverse permutations, then-edge uncomplemented (bcdd), "
                 "node_count == size of the reduced diagram computed from the truth table. Audits also run inside C01/C05/C06/C08/C14. "
                 "distinct = distinct (kind, operation, non-constant result table, #vars).",
-        "assumptions": ["audit only at quiescent points, under the manager's exclusive lock", "DDDMP import audited by the C15 monitor"],
+        "assumptions": ["audit only at quiescent points, under the manager's exclusive lock"],
         "jobs": [
             {"monitor": "c03_hist", "variant": "rel", "shards": 16},
             {"monitor": "c03_hist", "variant": "dbg", "shards": 16},
@@ -72,6 +72,9 @@ PLAN = {
             {"monitor": "c16_mgr", "variant": "pointer", "shards": 8},
             # concurrent bubble sort of set_var_order (>= 65536 nodes, 4 workers): full audit after each reordering
             {"monitor": "c08_large", "variant": "rel", "shards": {"quick": 4, "thorough": 16}, "parallel": 4},
+            # DDDMP import of well-formed, hand-damaged and byte-mutated files (ASCII and binary): whatever the importer
+            # accepts is stored in the manager, so the full structural audit runs after every accepted import (C03-r5m1)
+            {"monitor": "c15_malformed", "variant": "rel", "shards": 16},
         ],
         "require_counters": {"all": ["audits", "failed_operations_oom", "gcs_that_freed"]},
     },
@@ -460,7 +463,8 @@ PLAN = {
                 "restrict, cofactor, pick_cube_dd, clone/drop, gc, add_vars, reordering; plus 6 orders x 3 kinds of compact 3-variable "
                 "suites: node counts of all 256 functions, 256x64 pairs x 8 operators, all quantifications, all pick_cube choice "
                 "vectors) executed in every build variant: quick {index+cache+mt, pointer+cache+mt, index-nocache-st}; thorough all 8 "
-                "of {index,pointer} x {cache,nocache} x {mt,st}; inside each variant with 1, 2 and 8 worker threads. Each run is "
+                "of {index,pointer} x {cache,nocache} x {mt,st}; inside each variant with 1, 2 and 8 worker threads and, per history, "
+                "split depths MAX, 0, 1, 2 and automatic (hand-over from the parallel to the sequential recursor). Each run is "
                 "checked against the truth-table model and the structural/ref-count audits; per corpus item a digest (result tables, "
                 "node counts, equality pattern, orders, cubes) must be identical across thread counts and across all variants. "
                 "distinct = distinct corpus items whose digests were produced.",
@@ -718,7 +722,7 @@ MANIFEST_TEXT = {
 _EXTRA = {
     "C01": " Also: rejected and panicking add_named_vars batches and level-wise gc inside the histories; MTBDD and TDD value-table canonicity inside their history monitors (incl. reordering with live nodes); 786k-node diagrams rebuilt after concurrent reorderings on 2..8 workers.",
     "C02": " Also: every split depth and hostile eval argument lists (shuffled, repeated, omitted, after rejected calls); 13..16-variable operands under the automatic split depth; managers with 31..200 variables; every edge-level entry point and every trait default of BooleanFunction; single-threaded function types and the pointer-based manager.",
-    "C03": " Also: both node stores; after every variable-bookkeeping call of the C16 manager monitor; after concurrent reorderings of 786k-node diagrams.",
+    "C03": " Also: both node stores; after every variable-bookkeeping call of the C16 manager monitor; after concurrent reorderings of 786k-node diagrams; after every accepted DDDMP import of damaged and mutated files.",
     "C04": " Also: every split depth; 13..16-variable operands under the automatic split depth; managers with 31..200 variables; edge-level entry points, the trait-default apply-quantify forms, concurrently created substitutions, MTBDD restrict.",
     "C05": " Also: a large-store probe (66000..150000 slots, chunked pre-allocation), MTBDD terminals, histories run from inside a scope of a second manager.",
     "C06": " Also: on the pointer-based manager; level-wise gc, rejected variable batches and concurrently created substitutions between repetitions.",
@@ -734,7 +738,7 @@ _EXTRA = {
     "C16": " Also: the manager monitor on both node stores; histories with rejected batches and a panicking name iterator.",
     "C17": " Also: an element type without drop glue.",
     "C18": " Also: variable orders given as trees with name records before and after them.",
-    "C20": " Also: 786k-node reorderings and the TDD history monitor on the pointer-based manager.",
+    "C20": " Also: 786k-node reorderings and the TDD history monitor on the pointer-based manager; every history also at split depths 0, 1, 2 and automatic with 2 and 8 workers.",
 }
 for _k, _v in _EXTRA.items():
     MANIFEST_TEXT[_k]["text"] += _v
